@@ -238,7 +238,6 @@ def run(ctx):
                             pairs.append(('y.%s' % a.name, e.name, 'x.%s' % b.name, e2.name))
     mrng = ctx.subrng('member', ctx.shard)
     for i, (elt, ye, left, xe) in enumerate(pairs):
-        if i % ctx.nshards != ctx.shard % max(len(pairs), 1) and ctx.nshards > 1 and i % ctx.nshards != ctx.shard: continue
         for neg in ('not in', 'in'):
             for wrap in ('select(%s)', '(%s)'):
                 for extra in ('', ' if y.id != a0' if 'id' in schema.ents[ye].attrs else ''):
